@@ -57,6 +57,20 @@ def coreClauses : Bool → Query → Bool
 
 def InCore (q : Query) : Bool := coreClauses false q
 
+/-- the result is determined as a bag: no SKIP / LIMIT and no `collect` from the first MATCH on.  (Which rows a
+    window keeps among ties and the element order of a collected list depend on the order in which the expansions
+    produce rows; the stream compares those as sequences up to ties / as counts, `Agrees` compares bags.) -/
+def BagDetermined (q : Query) : Bool :=
+  (q.dropWhile fun | .match_ _ _ => false | _ => true).all fun
+    | .with_ p _ | .return_ p =>
+      p.skip.isNone && p.limit.isNone &&
+        p.items.all fun it => match it.expr with | .agg .collect _ => false | _ => true
+    | _ => true
+
+/-- the aggregate folds (except `collect`) do not depend on the order of their input -/
+def AggBagInvariant (A : Algebra) : Prop :=
+  ∀ k, k ≠ AggKind.collect → ∀ l l' : List Val, l.Perm l' → A.agg k l = A.agg k l'
+
 /-- none of the known findings of C11 is triggered by (graph, query) -/
 def NoKnownTrigger (A : Algebra) (env : Env) (q : Query) : Bool := (Findings.triggers A env q).isEmpty
 
